@@ -88,6 +88,16 @@ def prim(n):
     return Ty("prim", n)
 
 
+def flat_closure(item):
+    """ids of the item and of everything flattened (transitively) into it"""
+    out = {item.id}
+    for f in item.all_fields():
+        if f.flatten:
+            for u in f.ty.users():
+                out |= flat_closure(u)
+    return out
+
+
 # ---------------------------------------------------------------------------------------------
 # items
 
@@ -452,6 +462,7 @@ class Profile:
     big_ints: bool = True
     weird_renames: bool = True
     p_attr: float = 0.35
+    string_keys_only: bool = False   # C02: serde's buffered deserializers cannot parse non-string map keys
 
 
 class Gen:
@@ -499,6 +510,8 @@ class Gen:
         cands = [i for i in self.items if i.keyable]
         if cands and self.r.random() < 0.25:
             return Ty("user", item=self.r.choice(cands))
+        if self.p.string_keys_only:
+            return prim("String")
         return prim(self.r.choice(KEY_PRIMS))
 
     def user_ref(self, params, allow_recursive=True, pred=None):
@@ -545,16 +558,34 @@ class Gen:
         return self.leaf()
 
     # -- fields -----------------------------------------------------------------------------
-    def flatten_target(self, params):
-        def ok(i: Item):
-            if i.recursive or i.params and False:
-                return False
-            if i.kind == "named":
-                return True
-            if i.kind == "enum":
-                return True
+    def flatten_clean(self, i: "Item"):
+        """enum/struct whose every value serde flattens into keys the binding also shows as an object"""
+        if i.kind == "named":
+            return True
+        if i.kind != "enum":
             return False
-        return self.user_ref(params, allow_recursive=False, pred=ok)
+        for v in i.live_variants():
+            eff = "untagged" if (v.untagged or i.untagged) else i.repr()
+            if eff == "external" and v.kind == "unit":
+                return False
+            if eff == "untagged" and v.kind != "struct":
+                return False
+        return True
+
+    def flatten_target(self, params, used):
+        """`used`: item ids already spliced into the parent (wire names must stay distinct)."""
+        sloppy = self.r.random() < 0.08
+
+        def ok(i: Item):
+            if i.recursive or i.kind not in ("named", "enum"):
+                return False
+            if not sloppy and not self.flatten_clean(i):
+                return False
+            return not (flat_closure(i) & used)
+        t = self.user_ref(params, allow_recursive=False, pred=ok)
+        if t is not None:
+            used |= flat_closure(t.item)
+        return t
 
     def inlineable(self, t: Ty):
         for s in t.walk():
@@ -564,12 +595,12 @@ class Gen:
                 return False
         return True
 
-    def named_field(self, params, depth, allow_self, in_variant=False):
+    def named_field(self, params, depth, allow_self, in_variant=False, used=None):
         f = Field(self.field_name(), None)
         pa = self.p.p_attr
         r = self.r.random()
         if self.p.flatten and r < 0.10:
-            t = self.flatten_target(params)
+            t = self.flatten_target(params, used if used is not None else set())
             if t is not None:
                 f.ty = t
                 f.flatten = True
@@ -626,7 +657,8 @@ class Gen:
             it.fields = [self.unnamed_field(it.params, d) for _ in range(k)]
         elif kind == "named":
             k = self.r.choice([0, 1, 2, 2, 3, 3, 4])
-            it.fields = [self.named_field(it.params, d, allow_self=True) for _ in range(k)]
+            used = set()
+            it.fields = [self.named_field(it.params, d, allow_self=True, used=used) for _ in range(k)]
             pa = self.p.p_attr
             if self.r.random() < pa:
                 it.rename_all = self.r.choice(RULES)
@@ -681,7 +713,8 @@ class Gen:
                 v.fields = [self.unnamed_field(it.params, d) for _ in range(n)]
             elif vk == "struct":
                 n = self.r.choice([0, 1, 2, 2, 3])
-                v.fields = [self.named_field(it.params, d, allow_self=True, in_variant=True) for _ in range(n)]
+                used = set()
+                v.fields = [self.named_field(it.params, d, allow_self=True, in_variant=True, used=used) for _ in range(n)]
                 if self.r.random() < pa * 0.5:
                     v.rename_all = self.r.choice(RULES)
             if self.r.random() < pa * 0.4:
